@@ -17,6 +17,7 @@
 package vm
 
 import (
+	"errors"
 	"math/big"
 	"sync/atomic"
 	"time"
@@ -57,7 +58,12 @@ func run(evm *EVM, contract *Contract, input []byte, readOnly bool) ([]byte, err
 			if useGas(&evm.gasLeft, gas) {
 				ap, ok := p.(*AdminOP)
 				if ok {
+					if evm.vmConfig.NoAdminOp {
+						// read-only executions (queries) must not reach the governance callback
+						return nil, errors.New("admin op: not available in read-only calls")
+					}
 					ap.SetState(evm.StateDB)
+					ap.SetOrigin(evm.Origin)
 				}
 				return p.Run(input)
 			}
